@@ -704,6 +704,17 @@ def honest_wrap_replays(prop, bins):
 
 
 def fingerprint_drift():
+    soft = []
+    try:
+        soft = [l.strip() for l in open(os.path.join(vlib.COQ, "Gen", "soft_notes.txt")) if "timers" in l or "core.rs" in l]
+    except OSError:
+        pass
+    if soft:
+        return soft + _hash_drift()
+    return _hash_drift()
+
+
+def _hash_drift():
     try:
         base = dict(l.split() for l in open(os.path.join(vlib.ROOT, "tools", "fingerprints", "timers.txt")) if l.strip())
         cur = dict(l.split() for l in open(os.path.join(vlib.COQ, "Gen", "hashes.txt")) if l.strip())
